@@ -19,7 +19,7 @@ thread_local! {
     static LOG: RefCell<Vec<String>> = const { RefCell::new(Vec::new()) };
 }
 
-fn valid_file(k: i32) -> Vec<u8> {
+pub fn valid_file(k: i32) -> Vec<u8> {
     // minimal v2 file: one type "FIL" with UTC offset k (identifies the file), empty footer
     let mut f = vec![];
     for _ in 0..2 {
